@@ -157,6 +157,82 @@ def gen_interleaved(rng):
     return chunks
 
 
+def gen_clean_known(rng):
+    """a clean stream whose messages the generator knows (not the library's readers): -> (kind of stream, wire bytes,
+    [(message bytes, payload bytes)])"""
+    if rng.random() < 0.6:
+        st = rng.random() < 0.5
+        msgs = []
+        for _ in range(rng.choice([1, 2, 4, 6])):
+            info = bytes(rng.randrange(256) for _ in range(rng.choice([0, 1, 5, 12, 26, 40])))
+            f = H.make_frame(rng, info=info)
+            if not st and (0x7E in f or 0x7D in f):
+                info = bytes(x & 0x5F for x in info)
+                f = H.make_frame(rng, info=info, ctl=0x13)
+                if 0x7E in f or 0x7D in f:
+                    continue
+            msgs.append((f, info))
+        if not msgs:
+            return None
+        double = rng.random() < 0.5          # closing and opening flag shared, or one of each
+        wire = b"\x7e" + (b"\x7e\x7e" if double else b"\x7e").join(H.stuff(f) if st else f for f, _ in msgs) + b"\x7e"
+        return ("Hs" if st else "Hn"), wire, msgs
+    ros = [P.gen_readout(rng) for _ in range(rng.choice([1, 2, 3]))]
+    return "P", b"".join(ros), [(ro, ro[ro.find(b"\n") + 1: ro.find(b"!")]) for ro in ros]
+
+
+def _clean_known(res, rng, n, family="clean_stream_known_messages"):
+    """the last sentence of C13 against the GENERATOR's knowledge of what was transmitted: on a clean stream every message's
+    non-empty payload is queued (payload protocol) / every message is queued valid (message protocol), for every splitting -
+    byte by byte, a cut right after each flag / line end, random cuts - and every candidate order, provided the other
+    candidates stay quiet (hQuiet: fed the same chunks on their own they report no valid message)."""
+    for _ in range(n):
+        g = gen_clean_known(rng)
+        if g is None:
+            continue
+        sk, wire, msgs = g
+        own = {"Hs": ["H10", "H11"], "Hn": ["H00", "H01", "H10", "H11"] if False else ["H00", "H10"], "P": ["P"]}[sk]
+        marks = [i + 1 for i, x in enumerate(wire[:-1]) if x in (0x7E, 0x0A)]
+        splits = [[wire[i:i + 1] for i in range(len(wire))] if len(wire) <= 400 else [wire]]
+        splits += [lib.split_at(wire, [m]) for m in rng.sample(marks, min(len(marks), 4))]
+        splits += [lib.split_at(wire, sorted(set(rng.sample(marks, min(len(marks), 3))))) if marks else [wire]]
+        splits += [lib.split_at(wire, lib.random_cuts(rng, len(wire)))]
+        for chs in splits:
+            me = rng.choice(own)
+            if sk == "Hn" and me == "H10":
+                continue   # an unstuffed frame is not what a de-stuffing reader expects in general
+            others = rng.choice([[], [], ["P"] if sk != "P" else ["H00"], ["P"] if sk != "P" else ["H10"]])
+            cands = [me] + others if rng.random() < 0.5 else others + [me]
+            quiet = True
+            for o in others:
+                r = make_reader(o)
+                try:
+                    quiet = quiet and not any(m.is_valid for ch in chs for m in r.read(bytes(ch)))
+                except Exception:  # noqa
+                    quiet = False
+            if not quiet:
+                res.count("clean_known_not_quiet")
+                continue
+            kind = rng.choice(["message", "payload"])
+            i = impl_proto(kind, cands, chs)
+            res.evaluations += 1
+            case = {"op": "proto.clean", "kind": kind, "cands": cands, "chunks": [c.hex() for c in chs],
+                    "messages": [[m.hex(), p.hex()] for m, p in msgs]}
+            if i.startswith("EXC"):
+                res.prop_failure(case, f"data_received raised {i}", family)
+                continue
+            want = ["M" + lib.hexs(m) + "/1" for m, _ in msgs] if kind == "message" else ["P" + lib.hexs(p) for _, p in msgs if p]
+            items, idx = i.rsplit(" @", 1)
+            got = [] if items == "." else items.split(" ")
+            if got != want:
+                lost = [w for w in want if w not in got]
+                res.prop_failure(case, f"clean stream of {len(msgs)} messages, candidates {cands}, {len(chs)} chunks: the queue holds {len(got)} items, "
+                                       f"transmitted were {len(want)}" + (f"; missing {lost[0][:60]}" if lost else ""), family)
+            res.count(family)
+            res.count("clean_known_" + sk)
+            res.nontriv(("clean", kind, tuple(cands), tuple(chs)))
+
+
 def run(res, tier, seed, widen=1):
     rng = lib.rng_for(seed, "C13")
     res.rule = ("streams: clean HDLC, clean P1, corrupted, mixed noise x random chunkings x candidate lists {[H],[P],[H,P],[P,H],...} with 4 "
@@ -172,6 +248,7 @@ def run(res, tier, seed, widen=1):
     cases = [(rng.choice(["message", "payload"]), rng.choice(CANDS), gen_interleaved(rng)) for _ in range((600 if tier == "quick" else 15000) * widen)]
     for i in range(0, len(cases), 3000):
         _run_cases(res, cases[i:i + 3000], "interleaved_junk_and_empty_chunks")
+    _clean_known(res, rng, (150 if tier == "quick" else 4000) * widen)
 
 
 def search(res, tier, seed):
@@ -180,6 +257,16 @@ def search(res, tier, seed):
 
 def replay(payload, res):
     c = payload["case"]
+    if c["op"] == "proto.clean":
+        chs = [bytes.fromhex(x) for x in c["chunks"]]
+        i = impl_proto(c["kind"], c["cands"], chs)
+        msgs = [(bytes.fromhex(m), bytes.fromhex(p)) for m, p in c["messages"]]
+        want = ["M" + lib.hexs(m) + "/1" for m, _ in msgs] if c["kind"] == "message" else ["P" + lib.hexs(p) for _, p in msgs if p]
+        items = i.rsplit(" @", 1)[0] if " @" in i else i
+        got = [] if items == "." else items.split(" ")
+        print("transmitted:", len(want), "queued:", len(got), "" if got == want else "(differs)")
+        print("REPLAY", "passes" if got == want else "fails")
+        return 0 if got == want else 1
     _run_cases(res, [(c["kind"], c["cands"], [bytes.fromhex(x) for x in c["chunks"]])], "replay")
     for f in res.prop_failures:
         print("REPLAY property failure:", f["what"])
